@@ -318,8 +318,11 @@ pub fn deep_chain(depth: usize) -> Vec<u8> {
     v
 }
 
-pub fn run_deep(out: &mut Out) {
+pub fn run_deep(max_depth: usize, out: &mut Out) {
     for (depth, stack_kib) in [(10usize, 2048usize), (1000, 2048), (2000, 2048), (4000, 2048), (6000, 2048), (8180, 2048)] {
+        if depth > max_depth {
+            continue;
+        }
         let bytes = deep_chain(depth);
         let b2 = bytes.clone();
         let h = std::thread::Builder::new()
